@@ -223,7 +223,7 @@ pub fn explore(sc: &Scenario, cfg: &Config) -> Report {
                         // a violation raised by nondeterministic library behaviour (e.g. a random salt length under a defect):
                         // the violation stands (it is replayed natively); the path keeps its place in the decision tree
                         Outcome::Viol { .. } => { pts = forced; }
-                        _ => rt::inconclusive(&format!("scenario is not deterministic under re-execution: path ended after {} of {} forced decisions", pts.len(), forced.len())),
+                        _ => rt::inconclusive(&format!("scenario is not deterministic under re-execution: path ended after {} of {} forced decisions; next expected {:?}; taken {:?}; choices {:?}; notes {:?}; last op {:?}; outcome {:?}", pts.len(), forced.len(), forced.get(pts.len()), pts, rtx.choices, rtx.notes, cur_op(), outcome)),
                     }
                 }
                 max_depth = max_depth.max(pts.len());
